@@ -28,7 +28,7 @@ var verifC09 struct {
 func VerifC09_cancelledMiddleCommit() {
 	delays := 2
 	if verifThorough() {
-		delays = 4
+		delays = 3
 	}
 	verifPreemptions(delays)
 	verifC09.arrivals, verifC09.inflight, verifC09.maxIn, verifC09.failMask = nil, 0, 0, 0
@@ -178,4 +178,59 @@ func VerifC09_commitOrdering() {
 	}
 	verifAssert(verifBlockedCount() == 0, "no goroutine is left blocked")
 	verifReached("c09-commit-ordering")
+}
+
+// Commits issued WHILE earlier ones complete: A is in flight when B is issued (B chains behind
+// A); A is answered; C is issued while B is still in flight at the coordinator. C must chain
+// behind B: it reaches the coordinator only after B was answered, never two requests are in
+// flight, and the committed offset ends at C's. (VerifC09_commitOrdering issues all commits
+// before any answer; this is the staggered shape.)
+func VerifC09_commitIssuedWhilePriorCompletes() {
+	delays := 2
+	if verifThorough() {
+		delays = 3
+	}
+	verifPreemptions(delays)
+	verifC09.arrivals, verifC09.inflight, verifC09.maxIn, verifC09.failMask = nil, 0, 0, 0
+	cl := &Client{}
+	cl.cfg.logger = new(nopLogger)
+	cl.cfg.group = "g"
+	g := &groupConsumer{cl: cl, cfg: &cl.cfg, tps: newTopicsPartitions()}
+	g.memberGen.store("m", 1)
+	g.uncommitted = uncommitted{"t": {0: uncommit{}}}
+	offs := []int64{10, 20, 30}
+	var doneOrder []int
+	issue := func(i int) {
+		g.mu.Lock()
+		g.commit(context.Background(), map[string]map[int32]EpochOffset{"t": {0: {Epoch: 1, Offset: offs[i]}}},
+			func(_ *Client, req *kmsg.OffsetCommitRequest, resp *kmsg.OffsetCommitResponse, err error) {
+				doneOrder = append(doneOrder, i)
+				if err == nil {
+					g.updateCommitted(req, resp)
+				}
+			})
+		g.mu.Unlock()
+	}
+	issue(0)
+	issue(1)
+	verifRunAll()
+	verifAssert(len(verifC09.arrivals) == 1 && verifC09.arrivals[0].offset == 10, "only the first commit is at the coordinator")
+	close(verifC09.arrivals[0].gate) // A is answered
+	verifRunAll()
+	verifAssert(len(verifC09.arrivals) == 2 && verifC09.arrivals[1].offset == 20, "the second commit reaches the coordinator after the first was answered")
+	issue(2) // C, while B is still in flight
+	verifRunAll()
+	verifAssert(len(verifC09.arrivals) == 2, "a commit issued while an earlier one is in flight does not reach the coordinator before that one was answered")
+	close(verifC09.arrivals[1].gate) // B is answered
+	verifRunAll()
+	verifAssert(len(verifC09.arrivals) == 3 && verifC09.arrivals[2].offset == 30, "the third commit reaches the coordinator after the second was answered")
+	if len(verifC09.arrivals) == 3 {
+		close(verifC09.arrivals[2].gate)
+	}
+	verifRunAll()
+	verifAssert(verifC09.maxIn == 1, "never two commit requests in flight at once")
+	verifAssert(len(doneOrder) == 3 && doneOrder[0] == 0 && doneOrder[1] == 1 && doneOrder[2] == 2, "every commit's callback runs once, in issue order")
+	verifAssert(g.uncommitted["t"][0].committed.Offset == 30, "the committed offset is that of the last commit issued")
+	verifAssert(verifBlockedCount() == 0, "no goroutine is left blocked")
+	verifReached("c09-commit-staggered")
 }
